@@ -134,6 +134,8 @@ pub struct Cmd {
     /// RLIMIT_FSIZE in 512-byte blocks with SIGXFSZ ignored: a regular-file sink then accepts
     /// a short write at the limit and fails the next one (a real OS partial write)
     pub fsize_blocks: Option<u64>,
+    /// shell commands run in the child before the tool is exec'ed (process state: cwd, descriptors, limits, umask)
+    pub prelude: Option<String>,
 }
 
 impl Cmd {
@@ -147,14 +149,20 @@ impl Cmd {
             cwd: cwd.to_path_buf(),
             timeout: Duration::from_secs(120),
             fsize_blocks: None,
+            prelude: None,
         }
+    }
+    /// Run `script` (sh) in the child just before exec'ing the tool.
+    pub fn prelude(mut self, script: &str) -> Cmd {
+        self.prelude = Some(script.to_string());
+        self
     }
     pub fn fsize_limit(mut self, blocks: u64) -> Cmd {
         self.fsize_blocks = Some(blocks);
         self
     }
     pub fn os_args(cwd: &Path, args: Vec<OsString>) -> Cmd {
-        Cmd { bin: kestrel_bin(), args, env: vec![], stdin: Stdin::Null, stdout: Stdout::Capture, cwd: cwd.to_path_buf(), timeout: Duration::from_secs(120), fsize_blocks: None }
+        Cmd { bin: kestrel_bin(), args, env: vec![], stdin: Stdin::Null, stdout: Stdout::Capture, cwd: cwd.to_path_buf(), timeout: Duration::from_secs(120), fsize_blocks: None, prelude: None }
     }
     pub fn env(mut self, k: &str, v: &str) -> Cmd {
         self.env.push((k.to_string(), OsString::from(v)));
@@ -190,7 +198,7 @@ impl Cmd {
             Stdin::Empty => "empty-pipe".to_string(),
             Stdin::Zeros(n) => format!("pipe({} zero bytes)", n),
         };
-        format!("kestrel {} env[{}] stdin={} stdout={:?}{}", a.join(" "), e.join(" "), si, self.stdout, self.fsize_blocks.map(|b| format!(" [ulimit -f {} with SIGXFSZ ignored]", b)).unwrap_or_default())
+        format!("kestrel {} env[{}] stdin={} stdout={:?}{}", a.join(" "), e.join(" "), si, self.stdout, format!("{}{}", self.fsize_blocks.map(|b| format!(" [ulimit -f {} with SIGXFSZ ignored]", b)).unwrap_or_default(), self.prelude.as_ref().map(|p| format!(" [sh prelude: {}]", p)).unwrap_or_default()))
     }
 
     pub fn run(&self) -> Output {
@@ -200,10 +208,19 @@ impl Cmd {
         // tables of this multi-threaded monitor for every child.
         let mut c = Command::new("/usr/bin/setsid");
         c.arg("-w");
-        if let Some(blocks) = self.fsize_blocks {
+        if self.fsize_blocks.is_some() || self.prelude.is_some() {
+            let mut script = String::new();
+            if let Some(blocks) = self.fsize_blocks {
+                script.push_str(&format!("trap '' 25; ulimit -f {}; ", blocks));
+            }
+            if let Some(p) = &self.prelude {
+                script.push_str(p);
+                script.push_str("; ");
+            }
+            script.push_str("exec \"$@\"");
             c.arg("/bin/sh");
             c.arg("-c");
-            c.arg(format!("trap '' 25; ulimit -f {}; exec \"$@\"", blocks));
+            c.arg(script);
             c.arg("sh");
         }
         c.arg(&self.bin);
